@@ -32,6 +32,9 @@ type Result struct {
 	Skipped []string // "callee: reason"
 }
 
+// Vocab returns the vocabulary (canonical qualified name -> signature key). Read-only.
+func Vocab() map[string]string { return vocab }
+
 // Known reports whether a canonical qualified function name is in the vocabulary.
 func Known(name string) bool { _, ok := vocab[name]; return ok }
 
@@ -64,14 +67,19 @@ type site struct {
 	call   *ast.CallExpr
 	file   *ast.File
 	pkg    *packages.Package
-	stmt   ast.Stmt   // statement to replace
-	shape  int        // 1 expr, 2 assign, 3 return, 4 if-init, 5 in-expression
+	stmt   ast.Stmt    // statement to replace
+	shape  int         // 1 expr, 2 assign, 3 return, 4 if-init, 5 in-expression
 	ifStmt *ast.IfStmt // for shape 4
 }
 
 // Round performs one round of inlining over program p. name gives the
 // canonical qualified name of a function (aliases applied).
 func Round(p *load.Program, name func(*ssa.Function) string, overlay map[string][]byte, counter *int) *Result {
+	return RoundKeep(p, name, overlay, counter, nil)
+}
+
+// RoundKeep is Round with a veto: functions for which keep returns true are left as calls.
+func RoundKeep(p *load.Program, name func(*ssa.Function) string, overlay map[string][]byte, counter *int, keep func(*ssa.Function) bool) *Result {
 	res := &Result{Overlay: map[string][]byte{}}
 	type cand struct {
 		fd   *ast.FuncDecl
@@ -112,6 +120,10 @@ func Round(p *load.Program, name func(*ssa.Function) string, overlay map[string]
 				}
 				qn := name(sf)
 				if Known(qn) {
+					continue
+				}
+				if keep != nil && keep(sf) {
+					res.Skipped = append(res.Skipped, qn+": kept as a call in this variant (predicate)")
 					continue
 				}
 				if missingBySig[SigKey(sf)] > 0 {
@@ -169,9 +181,14 @@ func Round(p *load.Program, name func(*ssa.Function) string, overlay map[string]
 		ok := true
 		reason := ""
 		for _, s := range sites {
+			var quals []qual
 			if s.pkg != cd.pkg {
-				ok, reason = false, "called from another package"
-				break
+				var w string
+				quals, w = crossQuals(p.Fset, cd.fd, cd.pkg, s)
+				if w != "" {
+					ok, reason = false, "called from another package: "+w
+					break
+				}
 			}
 			if w := captureRisk(cd.fd, cd.pkg, s); w != "" {
 				ok, reason = false, w
@@ -183,7 +200,7 @@ func Round(p *load.Program, name func(*ssa.Function) string, overlay map[string]
 			}
 			*counter++
 			file := p.Fset.Position(s.stmt.Pos()).Filename
-			text, w := buildReplacement(p.Fset, src, cd.fd, cd.obj, cd.pkg, s, *counter)
+			text, w := buildReplacement(p.Fset, src, cd.fd, cd.obj, cd.pkg, s, *counter, quals)
 			if w != "" {
 				ok, reason = false, w
 				break
@@ -264,7 +281,14 @@ func calleeUnsafe(fd *ast.FuncDecl, obj *types.Func, pk *packages.Package, p *lo
 		}
 	}
 	if namedResults {
-		return "named results"
+		// supported: the names become locals of the inlined block; every name must be a real one
+		for _, f := range fd.Type.Results.List {
+			for _, n := range f.Names {
+				if n.Name == "_" {
+					return "blank named result"
+				}
+			}
+		}
 	}
 	why := ""
 	depth := 0
@@ -591,10 +615,11 @@ func soleCall(stmt ast.Stmt, target *ast.CallExpr, pk *packages.Package) string 
 
 // captureRisk: a package-level identifier used by the callee body must not be shadowed at the call site.
 func captureRisk(fd *ast.FuncDecl, pk *packages.Package, s site) string {
-	scope := pk.Types.Scope().Innermost(s.call.Pos())
+	scope := s.pkg.Types.Scope().Innermost(s.call.Pos())
 	if scope == nil {
 		return "no scope at the call site"
 	}
+	cross := s.pkg != pk
 	why := ""
 	ast.Inspect(fd.Body, func(n ast.Node) bool {
 		id, ok := n.(*ast.Ident)
@@ -605,7 +630,7 @@ func captureRisk(fd *ast.FuncDecl, pk *packages.Package, s site) string {
 		if obj == nil {
 			return true
 		}
-		if obj.Parent() == pk.Types.Scope() || obj.Parent() == types.Universe {
+		if (obj.Parent() == pk.Types.Scope() && !cross) || obj.Parent() == types.Universe {
 			if _, o := scope.LookupParent(id.Name, s.call.Pos()); o != nil && o != obj {
 				why = "identifier " + id.Name + " is shadowed at the call site"
 			}
@@ -620,6 +645,79 @@ func captureRisk(fd *ast.FuncDecl, pk *packages.Package, s site) string {
 		return true
 	})
 	return why
+}
+
+// qual is a text insertion (package qualifier) at an absolute file offset of the callee's file.
+type qual struct {
+	off  int
+	text string
+}
+
+// crossQuals: the callee may be inlined into another package only if its body names nothing unexported
+// of its own package; every package-level identifier it uses gets the caller file's import name in front.
+func crossQuals(fset *token.FileSet, fd *ast.FuncDecl, pk *packages.Package, s site) ([]qual, string) {
+	imp := ""
+	for _, im := range s.file.Imports {
+		path := strings.Trim(im.Path.Value, "\"")
+		if path != pk.PkgPath {
+			continue
+		}
+		imp = path[strings.LastIndex(path, "/")+1:]
+		if im.Name != nil {
+			imp = im.Name.Name
+		}
+	}
+	if imp == "" || imp == "." || imp == "_" {
+		return nil, "the caller's file does not import the helper's package by name"
+	}
+	scope := s.pkg.Types.Scope().Innermost(s.call.Pos())
+	if scope == nil {
+		return nil, "no scope at the call site"
+	}
+	if _, o := scope.LookupParent(imp, s.call.Pos()); o == nil {
+		return nil, "import name not visible at the call site"
+	} else if pn, ok := o.(*types.PkgName); !ok || pn.Imported() != pk.Types {
+		return nil, "the import name is shadowed at the call site"
+	}
+	var out []qual
+	why := ""
+	ast.Inspect(fd.Body, func(n ast.Node) bool {
+		id, ok := n.(*ast.Ident)
+		if !ok {
+			return true
+		}
+		obj := pk.TypesInfo.Uses[id]
+		if obj == nil || obj.Pkg() != pk.Types {
+			return true
+		}
+		switch o := obj.(type) {
+		case *types.Var:
+			if o.IsField() {
+				if !o.Exported() {
+					why = "uses the unexported field " + o.Name()
+				}
+				return true
+			}
+		case *types.Func:
+			if sig, _ := o.Type().(*types.Signature); sig != nil && sig.Recv() != nil {
+				if !o.Exported() {
+					why = "uses the unexported method " + o.Name()
+				}
+				return true
+			}
+		}
+		if obj.Parent() != pk.Types.Scope() {
+			return true // local
+		}
+		if !obj.Exported() {
+			why = "uses the unexported identifier " + obj.Name()
+			return true
+		}
+		out = append(out, qual{fset.Position(id.Pos()).Offset, imp + "."})
+		return true
+	})
+	// the receiver's and parameters' names must not be package-level names either (they are re-declared)
+	return out, why
 }
 
 // importRisk: packages named in the callee body must be imported under the same name in the caller's file.
@@ -686,7 +784,9 @@ func typeText(t types.Type, pk *packages.Package, file *ast.File) (string, bool)
 }
 
 // buildReplacement renders the statements that replace s.stmt.
-func buildReplacement(fset *token.FileSet, src func(string) []byte, fd *ast.FuncDecl, obj *types.Func, pk *packages.Package, s site, n int) (string, string) {
+func buildReplacement(fset *token.FileSet, src func(string) []byte, fd *ast.FuncDecl, obj *types.Func, calleePk *packages.Package, s site, n int, quals []qual) (string, string) {
+	pk := s.pkg // everything below is rendered in the caller's package
+	cross := calleePk != s.pkg
 	sig := obj.Type().(*types.Signature)
 	var b strings.Builder
 	tag := fmt.Sprintf("%d", n)
@@ -805,14 +905,18 @@ func buildReplacement(fset *token.FileSet, src func(string) []byte, fd *ast.Func
 			fmt.Fprintf(&b, "%s := %s\n_ = %s\n", an, bd.val, an)
 			continue
 		}
-		if w := typeNameRisk(bd.t, pk, scope, s.call.Pos()); w != "" {
-			return "", w
+		if !cross {
+			if w := typeNameRisk(bd.t, pk, scope, s.call.Pos()); w != "" {
+				return "", w
+			}
 		}
 		fmt.Fprintf(&b, "var %s %s = %s\n_ = %s\n", an, bd.typ, bd.val, an)
 	}
 	for i := 0; i < sig.Results().Len(); i++ {
-		if w := typeNameRisk(sig.Results().At(i).Type(), pk, scope, s.call.Pos()); w != "" {
-			return "", w
+		if !cross {
+			if w := typeNameRisk(sig.Results().At(i).Type(), pk, scope, s.call.Pos()); w != "" {
+				return "", w
+			}
 		}
 	}
 	// body with returns rewritten
@@ -820,7 +924,7 @@ func buildReplacement(fset *token.FileSet, src func(string) []byte, fd *ast.Func
 	if propagate && sig.Results().Len() != 1 {
 		return "", "error-propagating call of a function without exactly one result"
 	}
-	body, hasReturn, why := rewriteReturns(fset, src, fd, rnames, "inlL"+tag, propagate)
+	body, hasReturn, why := rewriteReturns(fset, src, fd, rnames, "inlL"+tag, propagate, quals)
 	if why != "" {
 		return "", why
 	}
@@ -831,11 +935,33 @@ func buildReplacement(fset *token.FileSet, src func(string) []byte, fd *ast.Func
 		}
 		fmt.Fprintf(&b, "%s := %s\n_ = %s\n", bd.name, anames[i], bd.name)
 	}
+	var namedRes []string
+	if fd.Type.Results != nil {
+		idx := 0
+		for _, f := range fd.Type.Results.List {
+			if len(f.Names) == 0 {
+				idx++
+				continue
+			}
+			for _, nm := range f.Names {
+				tt, ok := typeText(sig.Results().At(idx).Type(), pk, s.file)
+				if !ok {
+					return "", "a result type is not nameable in the caller's file"
+				}
+				fmt.Fprintf(&b, "var %s %s\n_ = %s\n", nm.Name, tt, nm.Name)
+				namedRes = append(namedRes, nm.Name)
+				idx++
+			}
+		}
+	}
 	if hasReturn {
 		fmt.Fprintf(&b, "inlL%s:\n", tag)
 	}
 	b.WriteString("switch {\ndefault:\n")
 	b.WriteString(body)
+	if len(namedRes) == len(rnames) && len(rnames) > 0 {
+		// falling off the end is impossible for a function with results; nothing to add
+	}
 	b.WriteString("\n}\n}\n")
 	// the statement itself
 	results := strings.Join(rnames, ", ")
@@ -947,10 +1073,30 @@ func typeNameRisk(t types.Type, pk *packages.Package, scope *types.Scope, pos to
 
 // rewriteReturns renders the callee's body statements with every return of the callee itself
 // replaced by an assignment to the result temps and a labelled break.
-func rewriteReturns(fset *token.FileSet, src func(string) []byte, fd *ast.FuncDecl, rnames []string, label string, propagate bool) (string, bool, string) {
+func rewriteReturns(fset *token.FileSet, src func(string) []byte, fd *ast.FuncDecl, rnames []string, label string, propagate bool, quals []qual) (string, bool, string) {
 	type rep struct {
 		start, end int
 		text       string
+	}
+	// text of a node of the callee with the package qualifiers inserted
+	qtext := func(n ast.Node) string {
+		ps, pe := fset.Position(n.Pos()), fset.Position(n.End())
+		b := src(ps.Filename)
+		if ps.Offset < 0 || pe.Offset > len(b) || ps.Offset > pe.Offset {
+			return ""
+		}
+		t := string(b[ps.Offset:pe.Offset])
+		var in []qual
+		for _, q := range quals {
+			if q.off >= ps.Offset && q.off < pe.Offset {
+				in = append(in, q)
+			}
+		}
+		sort.Slice(in, func(i, j int) bool { return in[i].off > in[j].off })
+		for _, q := range in {
+			t = t[:q.off-ps.Offset] + q.text + t[q.off-ps.Offset:]
+		}
+		return t
 	}
 	base := fset.Position(fd.Body.Lbrace).Offset + 1
 	end := fset.Position(fd.Body.Rbrace).Offset
@@ -977,13 +1123,23 @@ func rewriteReturns(fset *token.FileSet, src func(string) []byte, fd *ast.FuncDe
 				}
 				t = "{ break " + label + " }"
 			} else {
-				if len(x.Results) == 0 {
-					why = "bare return"
-					return false
-				}
 				var vals []string
+				if len(x.Results) == 0 {
+					// bare return: the named results
+					if fd.Type.Results != nil {
+						for _, f := range fd.Type.Results.List {
+							for _, nm := range f.Names {
+								vals = append(vals, nm.Name)
+							}
+						}
+					}
+					if len(vals) != len(rnames) {
+						why = "bare return"
+						return false
+					}
+				}
 				for _, r := range x.Results {
-					vals = append(vals, nodeText(fset, src, r))
+					vals = append(vals, qtext(r))
 				}
 				if propagate && len(vals) == 1 {
 					// the caller returns a non-nil result at once: keep that as a return
@@ -1005,7 +1161,22 @@ func rewriteReturns(fset *token.FileSet, src func(string) []byte, fd *ast.FuncDe
 	if why != "" {
 		return "", false, why
 	}
-	sort.Slice(reps, func(i, j int) bool { return reps[i].start > reps[j].start })
+	for _, q := range quals {
+		o := q.off - base
+		if o < 0 || o > len(body) {
+			continue
+		}
+		inside := false
+		for _, r := range reps {
+			if o >= r.start && o < r.end {
+				inside = true
+			}
+		}
+		if !inside {
+			reps = append(reps, rep{o, o, q.text})
+		}
+	}
+	sort.SliceStable(reps, func(i, j int) bool { return reps[i].start > reps[j].start })
 	for _, r := range reps {
 		if r.start < 0 || r.end > len(body) {
 			return "", false, "return outside the body text"
